@@ -116,19 +116,112 @@ def _outcome_str(o):
     return k
 
 
+_SRC_HASH = None
+
+
+def source_hash():
+    """Hash of everything a unit report depends on: the repository sources and the verifier itself."""
+    global _SRC_HASH
+    if _SRC_HASH is None:
+        import hashlib
+        h = hashlib.sha256()
+        verif = os.path.dirname(os.path.dirname(os.path.abspath(__file__)))
+        roots = [os.path.join(repo().src, "funtracks"), os.path.join(verif, "pyvc"), os.path.join(verif, "contracts")]
+        for root in roots:
+            for dp, dn, fns in sorted(os.walk(root)):
+                dn.sort()
+                for fn in sorted(fns):
+                    if fn.endswith(".py"):
+                        p = os.path.join(dp, fn)
+                        h.update(p.encode())
+                        h.update(open(p, "rb").read())
+        h.update(os.environ.get("PYVC_BRANCH_MS", "60").encode())
+        _SRC_HASH = h.hexdigest()
+    return _SRC_HASH
+
+
+CACHE_DIR = os.environ.get("PYVC_CACHE", os.path.join(os.path.dirname(os.path.dirname(os.path.abspath(__file__))), ".cache"))
+
+
+def run_unit_cached(unit):
+    """Build cache (like ccache): a unit report is reused only if the repository sources, the verifier
+    and the contracts are byte-identical to the run that produced it."""
+    import hashlib
+    import pickle
+    if os.environ.get("PYVC_NOCACHE"):
+        return run_unit(unit)
+    key = hashlib.sha256((source_hash() + "|" + unit.name).encode()).hexdigest()[:32]
+    path = os.path.join(CACHE_DIR, "unit-" + key + ".pkl")
+    try:
+        with open(path, "rb") as f:
+            rep = pickle.load(f)
+        rep["cached"] = True
+        return rep
+    except Exception:
+        pass
+    rep = run_unit(unit)
+    if not any(e.startswith("engine crash") for e in rep["errors"]):
+        try:
+            os.makedirs(CACHE_DIR, exist_ok=True)
+            tmp = path + f".{os.getpid()}.tmp"
+            with open(tmp, "wb") as f:
+                pickle.dump(rep, f)
+            os.replace(tmp, path)
+        except OSError:
+            pass
+    rep["cached"] = False
+    return rep
+
+
+def _verdict_cache_load(items, tag):
+    import hashlib
+    import pickle
+    hits, todo = {}, []
+    for key, txt in items:
+        h = hashlib.sha256((tag + txt).encode()).hexdigest()[:32]
+        p = os.path.join(CACHE_DIR, "q-" + h + ".pkl")
+        try:
+            with open(p, "rb") as f:
+                hits[key] = pickle.load(f)
+                hits[key]["cached"] = True
+        except Exception:
+            todo.append((key, txt, p))
+    return hits, todo
+
+
 def run_units(units, nproc=None, timeout=10, retry=60, want_both=False):
     """-> (unit reports, obligation table {oid: {...}})"""
+    import pickle
     nproc = nproc or int(os.environ.get("PYVC_NPROC", "16"))
+    seen = set()
+    units = [u for u in units if not (u.name in seen or seen.add(u.name))]
     if len(units) == 1 or nproc == 1:
-        reports = [run_unit(u) for u in units]
+        reports = [run_unit_cached(u) for u in units]
     else:
+        source_hash()
         with mp.get_context("fork").Pool(min(nproc, len(units))) as pool:
-            reports = pool.map(run_unit, units, chunksize=1)
+            reports = pool.map(run_unit_cached, units, chunksize=1)
     items = []
     for ri, rep in enumerate(reports):
         for oi, ob in enumerate(rep["obligs"]):
             items.append(((ri, oi), ob["smt2"]))
-    verdicts, nuniq = discharge_all(items, timeout=timeout, retry=retry, want_both=want_both)
+    tag = f"{timeout}|{retry}|{want_both}|"
+    if os.environ.get("PYVC_NOCACHE"):
+        hits, todo = {}, [(k, t, None) for k, t in items]
+    else:
+        hits, todo = _verdict_cache_load(items, tag)
+    verdicts, nuniq = discharge_all([(k, t) for k, t, _ in todo], timeout=timeout, retry=retry, want_both=want_both)
+    for k, t, p in todo:
+        if p is not None and verdicts[k]["result"] in ("unsat", "sat"):
+            try:
+                os.makedirs(CACHE_DIR, exist_ok=True)
+                with open(p + f".{os.getpid()}.tmp", "wb") as f:
+                    pickle.dump(verdicts[k], f)
+                os.replace(p + f".{os.getpid()}.tmp", p)
+            except OSError:
+                pass
+    verdicts.update(hits)
+    nuniq += len({t for k, t in items if k in hits})
     table = {}
     for ri, rep in enumerate(reports):
         for oi, ob in enumerate(rep["obligs"]):
